@@ -16,7 +16,7 @@ import (
 func init() {
 	register("C11",
 		"equality of two routes' arithmetic when they read the same inputs (the duplicated nine-star formulas are each evaluated against one statement, R16.5); agreement of routes that are not paired by name or by the explicit pair table.",
-		r11_1, r11_2, r11_3, r11_4, r11_5, r16_2, r11_6, r16_5, r18_6, r05_7)
+		r11_1, r11_2, r11_3, r11_4, r11_5, r16_2, r11_6, r16_5, r18_6, r05_7, r11_7)
 }
 
 // ---------- delegation shape ----------
@@ -103,6 +103,7 @@ func signatureOf(c *Ctx, fn *ssa.Function, bind map[int]constant.Value, rename f
 }
 
 func diffSig(a, b inputSig) (onlyA, onlyB []string) {
+	a.paths, b.paths = foldDerived(a.paths), foldDerived(b.paths)
 	for k := range a.paths {
 		if !b.paths[k] {
 			onlyA = append(onlyA, k)
@@ -629,23 +630,8 @@ func r11_4(c *Ctx, r *Report) {
 		if fn == nil {
 			continue
 		}
-		d := pureDelegation(fn)
-		okk := d != nil && fname(d.callee) == t.to
-		if okk {
-			args := d.call.Common().Args
-			k, isC := args[len(args)-1].(*ssa.Const)
-			okk = isC && k.Value != nil
-			if okk {
-				kv, _ := constant.Int64Val(k.Value)
-				okk = kv == t.k
-			}
-			for i, a := range args[:len(args)-1] {
-				if i < len(fn.Params) && a != ssa.Value(fn.Params[i]) {
-					okk = false
-				}
-			}
-		}
-		r.check(okk, rule, fmt.Sprintf("%s -> %s(…, %d)", t.from, t.to, t.k), c.fnPos(fn), "pure delegation with the documented default")
+		okk, detail := delegatesWithDefault(c, fn, c.FuncBy[t.to], t.k)
+		r.check(okk, rule, fmt.Sprintf("%s -> %s(…, %d)", t.from, t.to, t.k), c.fnPos(fn), "does what the longer entry does with the documented default: "+detail)
 	}
 	r.floor(rule, 15)
 }
@@ -716,4 +702,77 @@ func r11_6(c *Ctx, r *Report) {
 	if n < 2 {
 		r.bad(rule, "instance floor "+rule, "-", fmt.Sprintf("only %d typed call sites found (floor 2)", n))
 	}
+}
+
+// delegatesWithDefault: short(a…) does what long(a…, def) does. Both are resolved through pure delegations
+// (a single call whose result is returned) to the function that does the work, the arguments handed on being
+// evaluated over the entry's own parameters (markers for the shared ones; free trailing parameters of short, such
+// as a school passed through, take a spread of values): the same worker must be reached with the same argument
+// values. A delegation short -> long(a…, def) is the simplest case; two entries that each hand their arguments,
+// already normalised, to a shared unexported worker is another.
+func delegatesWithDefault(c *Ctx, short, long *ssa.Function, def int64) (bool, string) {
+	if short == nil || long == nil || len(long.Params) != len(short.Params)+1 {
+		return false, "the entries do not differ by one trailing parameter"
+	}
+	resolve := func(fn *ssa.Function, vals []interface{}) (*ssa.Function, []interface{}, bool) {
+		for depth := 0; depth < 4; depth++ {
+			d := pureDelegation(fn)
+			if d == nil || len(d.call.Common().Args) != len(d.callee.Params) || d.callee.Blocks == nil {
+				return fn, vals, true
+			}
+			cur, curVals := fn, vals
+			leaf := func(fr *evalFrame, v ssa.Value) (interface{}, bool) {
+				if p, ok := v.(*ssa.Parameter); ok && fr.parent == nil {
+					for i, q := range cur.Params {
+						if p == q {
+							return curVals[i], true
+						}
+					}
+				}
+				return nil, false
+			}
+			var next []interface{}
+			for _, a := range d.call.Common().Args {
+				o, ok := evalWith(&evalFrame{fn: cur}, a, leaf)
+				if !ok {
+					return nil, nil, false
+				}
+				next = append(next, o)
+			}
+			fn, vals = d.callee, next
+		}
+		return fn, vals, true
+	}
+	// which parameters of short are integers passed on (a school): those are varied
+	spreads := [][]interface{}{{}}
+	for i, p := range short.Params {
+		var opts []interface{}
+		if isIntType(p.Type()) {
+			for _, k := range []int64{-1, 0, 1, 2, 3, 1900, 1984} {
+				opts = append(opts, k)
+			}
+		} else {
+			opts = []interface{}{fmt.Sprintf("‹%d›", i)}
+		}
+		var next [][]interface{}
+		for _, s := range spreads {
+			for _, o := range opts {
+				next = append(next, append(append([]interface{}{}, s...), o))
+			}
+		}
+		spreads = next
+	}
+	n := 0
+	for _, vals := range spreads {
+		w1, a1, ok1 := resolve(short, vals)
+		w2, a2, ok2 := resolve(long, append(append([]interface{}{}, vals...), def))
+		n++
+		if !ok1 || !ok2 {
+			return false, "an argument handed on is not evaluable over the entry's parameters"
+		}
+		if w1 != w2 || fmt.Sprint(a1) != fmt.Sprint(a2) {
+			return false, fmt.Sprintf("with arguments %v: %s reaches %s%v, %s(…, %d) reaches %s%v", vals, short.Name(), w1.Name(), a1, long.Name(), def, w2.Name(), a2)
+		}
+	}
+	return true, fmt.Sprintf("%d argument combinations: the same worker with the same arguments", n)
 }
